@@ -87,10 +87,20 @@ def _batch(args):
                 case.setdefault("tier", tier)
             res = _safe_run(mod, case)
             res.setdefault("stats", {})
+            if res.get("violation") or res.get("harness_error"):
+                import gc
+                gc.collect()  # a failing run may leave a huge cyclic object graph (interval tree) behind
+            case_hash = ""
+            for _attempt in range(2):
+                try:
+                    case_hash = canon_hash({k: case[k] for k in case if k not in ("run_index", "verif_seed")})
+                    break
+                except MemoryError:
+                    import gc
+                    gc.collect()
             rec = {"idx": idx, "digest": res.get("digest"), "stats": res.get("stats", {}),
                    "violation": res.get("violation"), "harness_error": res.get("harness_error"),
-                   "case_hash": canon_hash({k: case[k] for k in case if k not in ("run_index", "verif_seed")}),
-                   "directed": bool(directed)}
+                   "case_hash": case_hash, "directed": bool(directed)}
             if res.get("violation") or res.get("harness_error") or idx % 97 == 0 or directed:
                 rec["case"] = case
                 rec["sample"] = mod.sample_of(case, res.get("stats", {}))
@@ -106,6 +116,40 @@ def _merge_counts(dst, src):
             dst[k] = dst.get(k, 0) + v
 
 
+def _child_eval(mod, case, conn):
+    try:
+        r = _safe_run(mod, case)
+        conn.send((r.get("violation") or {}).get("class"))
+    except BaseException:  # noqa
+        try:
+            conn.send(None)
+        except Exception:  # noqa
+            pass
+    finally:
+        conn.close()
+
+
+def eval_class(mod, case, timeout):
+    """Violation class of `case` (or None), evaluated in a forked child that is killed after `timeout` seconds: a
+    candidate that hangs or exhausts memory must not take the minimiser down with it. 'TIMEOUT' if killed."""
+    ctx = mp.get_context("fork")
+    parent, child = ctx.Pipe(duplex=False)
+    p = ctx.Process(target=_child_eval, args=(mod, case, child))
+    p.start()
+    child.close()
+    out = "TIMEOUT"
+    if parent.poll(timeout):
+        try:
+            out = parent.recv()
+        except EOFError:
+            out = None
+    if p.is_alive():
+        p.kill()
+    p.join(5)
+    parent.close()
+    return out
+
+
 def minimise(mod, case, vclass, max_replays=400, log=None):
     """ddmin over case['ops'] then module-specific simplifications; a candidate is kept only if
     the same violation class recurs."""
@@ -113,14 +157,14 @@ def minimise(mod, case, vclass, max_replays=400, log=None):
     # wall cap: only bounds how small the replay file gets, never whether it reproduces (the file is explicit)
     t_end = time.time() + float(os.environ.get("VERIF_MINIMISE_S", "600"))
 
+    per_candidate = float(os.environ.get("VERIF_CANDIDATE_S", "120"))
+
     def fails(c):
         if budget[0] <= 0 or time.time() > t_end:
             budget[0] = min(budget[0], 0)
             return False
         budget[0] -= 1
-        r = _safe_run(mod, c)
-        v = r.get("violation")
-        return bool(v) and v["class"] == vclass
+        return eval_class(mod, c, per_candidate) == vclass
 
     best = copy.deepcopy(case)
     for key in getattr(mod, "OPS_KEYS", ("ops",)):
@@ -211,11 +255,19 @@ def replay(prop, path, as_json=False, verbose=False):
 
 
 def run(prop, tier, seed, n_override=None):
+    try:
+        return _run(prop, tier, seed, n_override)
+    except Exception as e:  # noqa  -- never let a harness crash look like exit 1
+        print(f"HARNESS-ERROR property={prop}: {''.join(traceback.format_exception(e))[-3000:]}")
+        return 2
+
+
+def _run(prop, tier, seed, n_override=None):
     t_start = time.time()
     mod = load(prop)
     n = n_override if n_override is not None else mod.RUNS[tier]
     deadline = float(os.environ.get("VERIF_DEADLINE_S", mod.DEADLINE.get(tier, 0) if hasattr(mod, "DEADLINE") else 0) or 0)
-    batch_timeout = int(os.environ.get("VERIF_BATCH_TIMEOUT_S", getattr(mod, "BATCH_TIMEOUT", {}).get(tier, 1500)))
+    batch_timeout = int(os.environ.get("VERIF_BATCH_TIMEOUT_S", getattr(mod, "BATCH_TIMEOUT", {}).get(tier, 900 if tier == "quick" else 3000)))
     per_batch = max(1, min(getattr(mod, "BATCH", {}).get(tier, 25), (n + NPROC * 4 - 1) // (NPROC * 4)))
     directed = mod.directed(tier) if hasattr(mod, "directed") else []
     jobs = []
@@ -242,13 +294,31 @@ def run(prop, tier, seed, n_override=None):
     torch.set_num_threads(1)
     import warnings
     warnings.simplefilter("ignore")
+    import signal
+
+    class _WarmTimeout(BaseException):
+        pass
+
+    def _on_alarm(signum, frame):
+        raise _WarmTimeout()
+
+    old_handler = signal.signal(signal.SIGALRM, _on_alarm)
+    signal.setitimer(signal.ITIMER_REAL, float(os.environ.get("VERIF_WARM_S", "25")))
     try:
         for w in range(min(int(os.environ.get("VERIF_WARM", "8")), n)):
             wc = mod.gen_case(run_seed(seed, prop, w), tier, w)
             if not getattr(mod, "WARMUP_SKIP", None) or not mod.WARMUP_SKIP(wc):
                 _safe_run(mod, wc)
+    except _WarmTimeout:
+        print("note: warm-up cut short after its time limit (performance only; results unaffected)")
     except Exception as e:  # noqa
         print("warm-up failed:", repr(e))
+    finally:
+        signal.setitimer(signal.ITIMER_REAL, 0)
+        signal.signal(signal.SIGALRM, old_handler)
+    import gc
+    gc.collect()
+    t_pool = time.time()
     try:
         with cf.ProcessPoolExecutor(max_workers=NPROC, mp_context=ctx, initializer=_init_worker) as ex:
             futs = []
@@ -260,7 +330,7 @@ def run(prop, tier, seed, n_override=None):
                     if first_violation is not None or harness_errors:
                         pending.clear()
                         break
-                    if deadline and time.time() - t_start > deadline:
+                    if deadline and time.time() - t_pool > deadline:
                         skipped_batches += len(pending)
                         pending.clear()
                         break
@@ -302,6 +372,9 @@ def run(prop, tier, seed, n_override=None):
     wall = time.time() - t_start
     exit_code = 0
     replay_path = None
+    if evaluations == 0 and not harness_errors:
+        print(f"HARNESS-ERROR property={prop}: no run was executed (nothing explored) - refusing to report success")
+        return 2
     if harness_errors:
         idx, msg, case = harness_errors[0]
         print(f"HARNESS-ERROR property={prop} run_index={idx}:\n{msg}")
